@@ -884,6 +884,11 @@ def run(chk, P):
     chk.floor('R15.12', 6)
     r15_13(chk, P)
     chk.floor('R15.13', 1)
+    chk.rule('R15.14', 'the packet a managed set-up hands out is one of the encodings of the block: every value stored in '
+             'bitrate_manager_state.choice lies in [0,PACKETBLOBS) and vorbis_bitrate_flushpacket subscripts packetblob[] inside the '
+             'array (same obligations as R05.6) -- a hard minimum on quiet input drives the search to the top of the table')
+    c05.r05_6(common.Proxy(chk, 'R15.14'), P)
+    chk.floor('R15.14', 2)
     r15_2(chk, P)
     chk.floor('R15.2', 8)
     r15_3(chk, P)
